@@ -335,8 +335,16 @@ class extract_visitor(NodeVisitor):
                 p.add_name(AssignedName(name.id, np(node), np(name), g.iter), local=False)
 
             if g.ifs:
+                known = set(map(id, p._names))
                 for inode in g.ifs:
                     self.visit_in_flow(inode, p)
+                # names bound in a condition (walrus) are evaluated before the
+                # element expression, which precedes them in the text
+                bound = [n for n in p._names if id(n) not in known]
+                if bound:
+                    for n in bound:
+                        n.location = np(node)
+                    p._names.sort()
 
         elt = getattr(node, 'elt', None) or node.value  # type: ast.AST # type: ignore[union-attr]
         self.visit_in_flow(elt, p)
